@@ -762,7 +762,7 @@ func main() {
 	emitSym([][]lbl{{{"__name__", "m"}, {"a", "m"}, {"b", ""}}, {{"a", "m"}}})
 
 	// ----- generated -----
-	nRec := f.Count(260, 9000)
+	nRec := f.Count(260, 5000)
 	for i := 0; i < nRec; i++ {
 		r := gen.Fork(f.Seed, i)
 		g := &genCtx{r: r, clock: 1000}
@@ -779,7 +779,7 @@ func main() {
 		}
 		emitRec(req, script, !r.Chance(1, 15), "")
 	}
-	nHead := f.Count(170, 6000)
+	nHead := f.Count(170, 3000)
 	for i := 0; i < nHead; i++ {
 		r := gen.Fork(f.Seed, 1000000+i)
 		g := &genCtx{r: r, head: true, clock: 1000}
@@ -798,7 +798,7 @@ func main() {
 		}
 		emitHead(reqs, exon, "")
 	}
-	nSym := f.Count(40, 1000)
+	nSym := f.Count(40, 500)
 	for i := 0; i < nSym; i++ {
 		r := gen.Fork(f.Seed, 2000000+i)
 		g := &genCtx{r: r}
